@@ -213,3 +213,18 @@ reg('C15',
     'Trusted: the recorded edit list as ground truth. Reactions are built from 10 base molecules and 3 salts; larger systems are outside the bound.',
     'bounded exhaustive enumeration of reactions with constructed ground truth x role orders x renumberings on the real implementation',
     'DESIGN.md s5 C15')
+
+reg('C14',
+    'Valence-valid molecules are enumerated from D(<=4,2) (thorough <=5,2) over N,O,S,P,B,Cl with charges and radicals, every pattern of the '
+    'standardisation and charge rule tables instantiated as a molecule (element, bond-order and padding variants; each instance verified to match its '
+    'own pattern, so each rule fires), the documented functional-group pairs, an organometallic combinator, zwitterion / gem-dinitro / sulfur-cation / '
+    'tautomerisable special cases and the corpus stride. On each: canonicalize (x fix_tautomers, keep_kekule), standardize, fix_resonance, '
+    'standardize_charges, neutralize (x keep_charge), explicify/implicify_hydrogens and enumerate_tautomers. Relations checked: no exception; heavy-atom '
+    'multiset unchanged; net charge and hydrogen count conserved for rearrangements, equal change for neutralisation; no valence error afterwards; '
+    'derived values and atom/bond marks of the processed object equal those of a recomputed copy; op(op(m)) = op(m) on the structure; implicify o explicify '
+    'and its converse are identities; op(pi m) = pi op(m) for ALL (n<=4) / GEN numberings with tautomer fixing off (on for the corpus); documented '
+    'inputs give their documented outputs; tautomers conserve composition and are duplicate free.',
+    'Relational oracle (no reference standardiser). Return values are not part of the idempotence statement. Four classes are known findings keyed by '
+    'call site or input (metal amide -> dative rule adds hydrogens; azoxy-type two-pass rules; eta5-Cp numbering; one tautomer KeyError).',
+    'bounded exhaustive enumeration of molecules x operations x numberings on the real implementation, relational oracle',
+    'DESIGN.md s5 C14')
